@@ -1,6 +1,7 @@
 package props
 
 import (
+	"astverif/bitdom"
 	"fmt"
 	"os"
 	"sort"
@@ -25,6 +26,10 @@ func DebugSummary(names []string) {
 	if len(names) > 0 && names[0] == "-A" {
 		names = names[1:]
 		ck.IP = layout.New(p).IP
+	}
+	if len(names) > 0 && names[0] == "-B" {
+		names = names[1:]
+		ck.IP = layout.NewBits(p).IP
 	}
 	for _, n := range names {
 		f := p.Func(n)
@@ -53,9 +58,81 @@ func DebugSummary(names []string) {
 			for _, ne := range o.NE {
 				fmt.Printf("   ne %s != 0\n", ne)
 			}
+			for _, e := range o.Events {
+				printEvent(e, "   ")
+			}
+			var ds []string
+			for k := range o.Defs {
+				ds = append(ds, k)
+			}
+			sort.Strings(ds)
+			for _, k := range ds {
+				fmt.Printf("   def %s = %s\n", k, o.Defs[k])
+			}
 		}
 		for _, rq := range s.Reqs {
 			fmt.Printf(" req %s %s: %s >= 0\n", rq.Rule, rq.Site, rq.F)
+		}
+	}
+}
+
+func printEvent(e pathint.Event, ind string) {
+	bits := ""
+	if bv, ok := e.Val.Bits.(bitdom.Vec); ok {
+		bits = " bits=" + bv.String()
+	}
+	fmt.Printf("%sevent %s obj=%s off=%s width=%s val=%s%s id=%s key=%s\n", ind, e.Kind, e.Obj, e.Off, e.Width, e.Val, bits, e.ID, e.Key)
+	for i, b := range e.Body {
+		g := ""
+		if i < len(e.Guard) {
+			g = e.Guard[i]
+		}
+		fmt.Printf("%s body %d guard=%s\n", ind, i, g)
+		for _, be := range b {
+			printEvent(be, ind+"    ")
+		}
+	}
+}
+
+// DebugCompose composes every success outcome of a writer with a parser summary and prints the verdicts.
+func DebugCompose(writer, parser, root string, rootPtr bool) {
+	p, err := load.Load(load.Options{})
+	if err != nil {
+		fmt.Fprintln(os.Stderr, err)
+		os.Exit(2)
+	}
+	ck := layout.NewBits(p)
+	wf, pf := p.Func(writer), p.Func(parser)
+	if wf == nil || pf == nil {
+		fmt.Println("no such function")
+		return
+	}
+	ws, ps := ck.IP.Summarize(wf), ck.IP.Summarize(pf)
+	fmt.Printf("writer outcomes=%d parser outcomes=%d\n", len(ws.Outcomes), len(ps.Outcomes))
+	for i := range ws.Outcomes {
+		o := &ws.Outcomes[i]
+		if o.ErrNil == pathint.No {
+			continue
+		}
+		if only := os.Getenv("ASTVERIF_COMPOSE_ONLY"); only != "" && only != fmt.Sprint(i) {
+			continue
+		}
+		src := ck.SourceFromOutcome(wf, o, "$w", fmt.Sprintf("%s#%d", writer, i))
+		fmt.Printf("-- source %s: %s\n", src.Name, src.Describe())
+		fmt.Printf("   total=%s ok=%v facts=%v\n", src.Total, src.TotalOK, src.St.Facts)
+		comp := ck.Compose(src, pf, ps, "$i", root, rootPtr, layout.ComposeOpts{})
+		fmt.Printf("   parser outcomes compatible: %d consumed=%s assumed=%v\n", comp.Outcomes, comp.Consumed, comp.Assumed)
+		for _, pr := range comp.Problems {
+			fmt.Printf("   PROBLEM %s\n", pr)
+		}
+		for _, f := range comp.Fields {
+			tag := "ok  "
+			if !f.OK {
+				tag = "BAD "
+			} else if f.Skip {
+				tag = "skip"
+			}
+			fmt.Printf("   %s %s: %s\n", tag, f.Path, f.Detail)
 		}
 	}
 }
